@@ -162,10 +162,11 @@ func (e *evil) refPeer(victim string, version int, st, rt uint32, cur *world.Sec
 	}
 	next := e.secret()
 	ctr := uint64(0)
+	skid := uint32(1)
 	send := func(label string, flag byte, plain []byte) {
 		ctr++
 		keys := ref.DeriveSessionKeys(cur.Pub, vsec.Pub, ref.Shared(vsec.Pub, cur.X))
-		d := &ref.Data{Flag: flag, SKID: 1, RKID: 1, Y: next.Pub}
+		d := &ref.Data{Flag: flag, SKID: skid, RKID: 1, Y: next.Pub}
 		binary.BigEndian.PutUint64(d.Ctr[:], ctr)
 		d.Enc = ref.CTR(keys.SendAES, d.Ctr[:], plain)
 		hdr := ref.BuildHeader(version, ref.TypeData, st, rt)
